@@ -104,7 +104,7 @@ def run_rejected(unit, tier, seed, acc):
     for row in rows:
         # only values the docstring / the enumeration itself excludes (a documented rejection: out-of-range
         # number, member without an XML value); wrong Python types are not what C03 quantifies over
-        vals = [(v, c) for v, c in c09.grid(row) if c in ("outside-bound", "no-xml-member")]
+        vals = [(v, c) for v, c in c09.grid(row) if c in ("outside-bound", "no-xml-member", "nonfinite")]  # (inf / nan: out-of-range numbers like any other)
         for idx, (v, vcls) in enumerate(vals):
             prs = c09.new_deck()
             try:
